@@ -23,7 +23,7 @@ ASSUMPTIONS = [
     "'best single candidate' = best among predictions that are not assigned to another reference",
 ]
 MINIMUM = {"C14.checked": 2000, "C14.merge_steps": 300}
-BUDGET_S = {"quick": 600, "thorough": 900}
+BUDGET_S = {"quick": 1200, "thorough": 900}
 
 TINY = {"t1d5": ((5,), 3, 7), "t2x3": ((2, 3), 3, 211)}
 
